@@ -103,7 +103,9 @@ func Solve(o *Obligation, opts solveOpts) {
 	if !o.ExpectSat && strings.Contains(text, "(forall ") {
 		var qf strings.Builder
 		for _, line := range strings.Split(text, "\n") {
-			if strings.HasPrefix(line, "(assert ") && (strings.Contains(line, "(forall ") || strings.Contains(line, "(exists ")) && !strings.HasPrefix(line, "(assert "+o.Goal) {
+			// engine-generated quantified facts (slice / allocation / preservation lemmas) bind qi, qp or qk;
+			// quantifiers written in contracts (axioms, invariants) are kept
+			if strings.HasPrefix(line, "(assert ") && (strings.Contains(line, "(forall ((qi ") || strings.Contains(line, "(forall ((qp ") || strings.Contains(line, "(forall ((qk ")) && !strings.HasPrefix(line, "(assert "+o.Goal) {
 				continue
 			}
 			qf.WriteString(line)
@@ -119,7 +121,7 @@ func Solve(o *Obligation, opts solveOpts) {
 			ans, out := runSolver(context.Background(), solvers[0], f, qt)
 			os.Remove(f)
 			if ans == "unsat" {
-				o.Answer, o.Backend, o.Ms, o.Output = "unsat", solvers[0].name+" (quantifier-free subset of the hypotheses)", time.Since(t0).Milliseconds(), firstLines(out, 2)
+				o.Answer, o.Backend, o.Ms, o.Output = "unsat", solvers[0].name+" (without the engine's quantified lemmas)", time.Since(t0).Milliseconds(), firstLines(out, 2)
 				return
 			}
 		}
